@@ -623,23 +623,25 @@ def G8(ctx: Ctx) -> RuleResult:
             r.ok(f'{vn}: LALR(1) table built for starts {view.starts}')
     v = gm.hpl
     nul = v.nullable()
-    for o in ('hpl_file', 'hpl_property', '_list_of_properties'):
+    for o in ('hpl_file', 'hpl_property'):
         if not v.rules_of(o):
             raise AnalysisError('G8', f'rule {o} not found')
         if o in nul:
             r.fail(f'{o}:nullable', f'{o} derives the empty string: an empty file would be accepted', 'src/hpl/grammar.py')
         else:
             r.ok(f'{o} is not nullable')
-    shapes = sorted([[n for n, t, f in e.symbols] for e in v.rules_of('_list_of_properties')], key=len)
-    if shapes == [['hpl_property'], ['_list_of_properties', 'hpl_property']]:
-        r.ok('_list_of_properties: hpl_property | _list_of_properties hpl_property (source order)')
+    lays, trunc = v.layouts('hpl_file')
+    ok_items = all(all(it.kind == 'nt' and it.name.rstrip('.') in ('hpl_property',) or it.name.endswith('...') for it in l) for l in lays)
+    min_len = min((len(l) for l in lays), default=0)
+    if not ok_items:
+        r.fail('hpl_file:children', f'children of hpl_file are not only properties: {[str(l) for l in lays[:3]]}', 'src/hpl/grammar.py')
+    elif min_len < 1:
+        r.fail('hpl_file:empty', 'hpl_file can have no property at all: an empty file is accepted', 'src/hpl/grammar.py')
+    elif not trunc:
+        r.fail('hpl_file:list', f'hpl_file admits only {sorted({len(l) for l in lays})} properties', 'src/hpl/grammar.py')
     else:
-        r.fail('_list_of_properties', f'not the left-recursive list hpl_property+: {shapes}', 'src/hpl/grammar.py')
-    fshape = [[n for n, t, f in e.symbols] for e in v.rules_of('hpl_file')]
-    if fshape == [['_list_of_properties']]:
-        r.ok('hpl_file: _list_of_properties')
-    else:
-        r.fail('hpl_file', f'unexpected shape {fshape}', 'src/hpl/grammar.py')
+        r.ok('hpl_file: one or more hpl_property children, in source order')
+    # source order: the list rule (if any) is left- or right-recursive with the single property on the other side, never reordered by lark
     items = {e.symbols[0][0] for e in v.rules_of('_metadata_item') if len(e.symbols) == 1}
     keys = {}
     for it in items:
